@@ -242,6 +242,14 @@ func (auth *Authenticator) NewRole(name string, channels base.Set) (Role, error)
 	if existingRole != nil && existingRole.IsDeleted() {
 		role.SetCas(existingRole.Cas())
 		role.SetChannelHistory(existingRole.ChannelHistory())
+		// the deleted role recorded a channel history for every collection (DeleteRole): keep those of named collections too
+		for scopeName, collections := range existingRole.GetCollectionsAccess() {
+			for collectionName, collectionAccess := range collections {
+				if len(collectionAccess.ChannelHistory_) > 0 {
+					role.SetCollectionChannelHistory(scopeName, collectionName, collectionAccess.ChannelHistory_)
+				}
+			}
+		}
 	}
 	if err := role.initRole(name, channels, auth.Collections); err != nil {
 		return nil, err
@@ -265,6 +273,14 @@ func (auth *Authenticator) NewRoleNoChannels(name string) (Role, error) {
 	if existingRole != nil && existingRole.IsDeleted() {
 		role.SetCas(existingRole.Cas())
 		role.SetChannelHistory(existingRole.ChannelHistory())
+		// the deleted role recorded a channel history for every collection (DeleteRole): keep those of named collections too
+		for scopeName, collections := range existingRole.GetCollectionsAccess() {
+			for collectionName, collectionAccess := range collections {
+				if len(collectionAccess.ChannelHistory_) > 0 {
+					role.SetCollectionChannelHistory(scopeName, collectionName, collectionAccess.ChannelHistory_)
+				}
+			}
+		}
 	}
 
 	if err := role.initRole(name, nil, nil); err != nil {
